@@ -79,6 +79,11 @@ impl ProvisionSharedState {
                 match action {
                     ProvisionAction::UpdateState { state, response } => {
                         provision_state |= state;
+                        if provision_state.contains(ProvisionFlags::ALL_READY) {
+                            // stamp the finished tick in the same message that sees ALL_READY, so that
+                            // no reset can slip in between "all ready" and the stamp
+                            provision_finished_time_tick = misc_helpers::get_date_time_unix_nano();
+                        }
                         if let Err(new_state) = response.send(provision_state.clone()) {
                             logger::write_warning(format!(
                                 "Failed to send response to ProvisionAction::UpdateState with new state '{:?}'",
@@ -88,6 +93,9 @@ impl ProvisionSharedState {
                     }
                     ProvisionAction::ResetState { state, response } => {
                         provision_state &= !state;
+                        if !provision_state.contains(ProvisionFlags::ALL_READY) {
+                            provision_finished_time_tick = 0;
+                        }
                         if let Err(new_state) = response.send(provision_state.clone()) {
                             logger::write_warning(format!(
                                 "Failed to send response to ProvisionAction::ResetState with new state '{:?}'",
